@@ -41,3 +41,15 @@ func OpenWithStorage(stor storage.Storage, create bool, writeBuffer, blockSize i
 	}
 	return &LevelDB{ldb: ldb}, nil
 }
+
+// SimBeforeWriterLock, when set, is called by BeginTx right before it takes
+// the writer lock: a simulator parks the caller there until the lock is free
+// (a goroutine blocked on a sync.Mutex is invisible to it), so that whatever
+// BeginTx does before the lock really runs while another writer holds it.
+var SimBeforeWriterLock func()
+
+func simBeforeWriterLock() {
+	if f := SimBeforeWriterLock; f != nil {
+		f()
+	}
+}
